@@ -202,7 +202,9 @@ func init() {
 		// the specification sees the fraction exactly as the library does (big.Rat normalises it)
 		e["num"] = bigN(r.Num())
 		e["den"] = bigN(r.Denom())
+		cp := new(big.Rat).Set(r)
 		e.setDec("r", d128.FromRat(r))
+		e["inmod"] = cp.Cmp(r) != 0 || cp.Num().Cmp(r.Num()) != 0 || cp.Denom().Cmp(r.Denom()) != 0
 	}
 	execTable["FromFloat64"] = func(e Ev) {
 		f := recToFloat64(e["f"])
@@ -231,6 +233,8 @@ func init() {
 	}
 	execTable["FromFloat"] = func(e Ev) {
 		f := recToBigFloat(e["f"])
+		cp := new(big.Float).Copy(f)
 		e.setDec("r", d128.FromFloat(f))
+		e["inmod"] = cp.Cmp(f) != 0 || cp.Prec() != f.Prec() || cp.Mode() != f.Mode() || cp.Signbit() != f.Signbit()
 	}
 }
